@@ -44,6 +44,33 @@ type AllocationRecord struct {
 	Metadata     map[string]string `json:"metadata,omitempty"`
 }
 
+// clone returns a copy of the record that shares no memory with a: the store keeps
+// and hands out copies, so neither the record a caller passed to SaveAllocation (and
+// the *net.IPNet inside it, which PoolAllocator.Allocate also returns to its caller)
+// nor a record returned by a getter aliases the stored one. A write through such a
+// pointer used to change the stored prefix behind the by-IP index, which was then
+// never cleaned up (the address stayed "allocated" to a subscriber that had released it).
+func (a AllocationRecord) clone() AllocationRecord {
+	if a.Prefix != nil {
+		a.Prefix = &net.IPNet{
+			IP:   append(net.IP(nil), a.Prefix.IP...),
+			Mask: append(net.IPMask(nil), a.Prefix.Mask...),
+		}
+	}
+	if a.ExpiresAt != nil {
+		t := *a.ExpiresAt
+		a.ExpiresAt = &t
+	}
+	if a.Metadata != nil {
+		m := make(map[string]string, len(a.Metadata))
+		for k, v := range a.Metadata {
+			m[k] = v
+		}
+		a.Metadata = m
+	}
+	return a
+}
+
 // MarshalJSON implements custom JSON marshaling for AllocationRecord
 func (a AllocationRecord) MarshalJSON() ([]byte, error) {
 	type Alias AllocationRecord
@@ -149,6 +176,9 @@ func (s *MemoryAllocationStore) SaveAllocation(ctx context.Context, alloc Alloca
 	s.mu.Lock()
 	defer s.mu.Unlock()
 
+	// The store owns its records: keep a copy, not the caller's pointers
+	alloc = alloc.clone()
+
 	// Check for IP conflict
 	ipKey := alloc.Prefix.IP.String()
 	if existing, exists := s.byIP[ipKey]; exists {
@@ -225,7 +255,7 @@ func (s *MemoryAllocationStore) GetBySubscriber(ctx context.Context, subscriberI
 
 	result := make([]AllocationRecord, 0, len(subAllocs))
 	for _, alloc := range subAllocs {
-		result = append(result, alloc)
+		result = append(result, alloc.clone())
 	}
 	return result, nil
 }
@@ -242,7 +272,7 @@ func (s *MemoryAllocationStore) GetByPool(ctx context.Context, poolID string) ([
 
 	result := make([]AllocationRecord, 0, len(poolAllocs))
 	for _, alloc := range poolAllocs {
-		result = append(result, alloc)
+		result = append(result, alloc.clone())
 	}
 	return result, nil
 }
@@ -256,7 +286,7 @@ func (s *MemoryAllocationStore) GetByPoolType(ctx context.Context, poolType Pool
 	for _, poolAllocs := range s.byPool {
 		for _, alloc := range poolAllocs {
 			if alloc.PoolType == poolType {
-				result = append(result, alloc)
+				result = append(result, alloc.clone())
 			}
 		}
 	}
@@ -273,7 +303,8 @@ func (s *MemoryAllocationStore) GetByIP(ctx context.Context, ip net.IP) (*Alloca
 		return nil, ErrNotFound
 	}
 
-	return alloc, nil
+	record := alloc.clone()
+	return &record, nil
 }
 
 // GetPoolUtilization implements AllocationStore
